@@ -6,15 +6,20 @@ import (
 	"bytes"
 	"encoding/binary"
 	"fmt"
+	"strings"
+	"time"
 	"unicode/utf8"
 
 	kmip "github.com/ovh/kmip-go"
+	"github.com/ovh/kmip-go/payloads"
 	"github.com/ovh/kmip-go/ttlv"
 
 	"verif/harness/core"
 	"verif/harness/gen"
 	"verif/harness/props/c02"
+	"verif/harness/refmodel"
 	"verif/harness/wire"
+	"verif/harness/xtree"
 )
 
 var encs = []string{"ttlv", "xml", "json"}
@@ -367,6 +372,127 @@ func crafted(c *core.Ctx, r *core.Rand, i int) {
 	}
 }
 
+// largeInputs: accepted messages far larger than the usual ones (a byte string of 8 KiB .. 300 KiB, or several
+// hundred batch items), written by the harness's own writers in all three encodings.
+func largeInputs(c *core.Ctx, r *core.Rand, i int) {
+	sizes := []int{8000, 8184, 8200, 12288, 65536, 100000, 300000}
+	var msg any
+	var t *c02.Target
+	if i%2 == 0 {
+		n := sizes[(i/2)%len(sizes)] + r.Intn(9)
+		msg = &kmip.RequestMessage{Header: kmip.RequestHeader{ProtocolVersion: kmip.V1_4, BatchCount: 1},
+			BatchItem: []kmip.RequestBatchItem{{Operation: kmip.OperationRegister, RequestPayload: &payloads.RegisterRequestPayload{ObjectType: kmip.ObjectTypeOpaqueObject,
+				Object: &kmip.OpaqueObject{OpaqueDataType: 1, OpaqueDataValue: r.Bytes(n)}}}}}
+		t = c02.TargetByName("RequestMessage")
+	} else {
+		m := &kmip.ResponseMessage{Header: kmip.ResponseHeader{ProtocolVersion: kmip.V1_4, TimeStamp: time.Unix(1700000000, 0)}}
+		for k, n := 0, 150+r.Intn(500); k < n; k++ {
+			m.BatchItem = append(m.BatchItem, kmip.ResponseBatchItem{Operation: kmip.OperationActivate, UniqueBatchItemID: []byte{byte(k), byte(k >> 8), 1}, ResultStatus: kmip.ResultStatusSuccess,
+				ResponsePayload: &payloads.ActivateResponsePayload{UniqueIdentifier: fmt.Sprint("id-", k)}})
+		}
+		m.Header.BatchCount = int32(len(m.BatchItem))
+		msg, t = m, c02.TargetByName("ResponseMessage")
+	}
+	tree, err := refmodel.Tree(msg, 4)
+	if err != nil {
+		panic(err)
+	}
+	for _, enc := range encs {
+		var data []byte
+		switch enc {
+		case "xml":
+			data = xtree.WriteXML(tree)
+		case "json":
+			data = xtree.WriteJSON(tree)
+		default:
+			data = wire.Gen(tree)
+		}
+		c.Count("inputs", 1)
+		c.Count("large_inputs", 1)
+		var v any
+		var derr error
+		if p, pv, st := core.Guard(func() { v, derr = c02.Decode(enc, append([]byte{}, data...), t) }); p {
+			c.Violation(core.PanicSig(pv, st), fmt.Sprintf("%s decoder panicked on a large message: %v", enc, pv), map[string]any{"stack": st})
+			continue
+		}
+		if derr != nil {
+			c.Count("large_inputs_rejected", 1)
+			continue
+		}
+		c.Distinct(core.HashBytes(data[:64]))
+		Check(c, enc, t, v, data, "large-message")
+	}
+}
+
+// concurrentForwarding: several goroutines forward accepted messages (decode, re-encode in JSON, XML and binary)
+// at the same moment; each re-encoding must be the one the same input gives when forwarded alone.
+func concurrentForwarding(c *core.Ctx, r *core.Rand, i int) {
+	for round := 0; round < 12; round++ {
+		concurrentRound(c, r, i*12+round)
+	}
+}
+
+func concurrentRound(c *core.Ctx, r *core.Rand, i int) {
+	const G = 8
+	per := 30
+	type job struct {
+		in   []byte
+		want [3][]byte
+	}
+	t := c02.TargetByName("RequestMessage")
+	jobs := make([][]job, G)
+	for g := 0; g < G; g++ {
+		for k := 0; k < per; k++ {
+			msg := &kmip.RequestMessage{Header: kmip.RequestHeader{ProtocolVersion: kmip.V1_4, BatchCount: 1},
+				BatchItem: []kmip.RequestBatchItem{{Operation: kmip.OperationRegister, UniqueBatchItemID: r.Bytes(1 + r.Intn(12)), RequestPayload: &payloads.RegisterRequestPayload{ObjectType: kmip.ObjectTypeOpaqueObject,
+					Object: &kmip.OpaqueObject{OpaqueDataType: 1, OpaqueDataValue: r.Bytes(1 + r.Intn(200))}}}}}
+			in := ttlv.MarshalJSON(msg)
+			v, err := c02.Decode("json", append([]byte{}, in...), t)
+			if err != nil {
+				panic(err)
+			}
+			j := job{in: in}
+			for e, enc := range encs {
+				j.want[e] = Encode(enc, t, v)
+			}
+			jobs[g] = append(jobs[g], j)
+		}
+	}
+	type failure struct{ enc, want, got string }
+	fails := make(chan failure, 3*G*per)
+	start := make(chan struct{})
+	done := make(chan struct{}, G)
+	for g := 0; g < G; g++ {
+		go func(g int) {
+			defer func() { done <- struct{}{} }()
+			<-start
+			for _, j := range jobs[g] {
+				v, err := c02.Decode("json", append([]byte{}, j.in...), t)
+				if err != nil {
+					fails <- failure{"json", "decodes", "error: " + err.Error()}
+					continue
+				}
+				for e, enc := range encs {
+					if got := Encode(enc, t, v); !bytes.Equal(got, j.want[e]) {
+						fails <- failure{enc, show(enc, j.want[e]), show(enc, got)}
+					}
+				}
+			}
+		}(g)
+	}
+	close(start)
+	for g := 0; g < G; g++ {
+		<-done
+	}
+	close(fails)
+	c.Count("concurrent_forwardings", int64(G*per))
+	c.Distinct(core.Hash64("c18-concurrent", fmt.Sprint(i)))
+	for f := range fails {
+		c.Violation("C18:concurrent:reencoding-differs:"+f.enc, "a message forwarded while other goroutines forward other messages is re-encoded differently from the same message forwarded alone (it carries another message's bytes)",
+			map[string]any{"alone": f.want, "concurrently": f.got})
+	}
+}
+
 func Spec() *core.Spec {
 	_ = kmip.V1_0
 	return &core.Spec{
@@ -377,8 +503,24 @@ func Spec() *core.Spec {
 			"for each accepted value v: enc(v) must decode and re-encode to identical bytes in the same encoding and in each other encoding in which v's text strings and dates are representable (predicates computed by the harness from v's binary tree). " +
 			"distinct = distinct accepted input byte strings",
 		Assumptions: []string{"representable in XML = valid UTF-8 consisting of XML 1.0 Chars; in JSON = valid UTF-8; dates within years 1..9999 for both", "TZ=UTC"},
-		Required:    []string{"accepted_inputs.ttlv", "accepted_inputs.xml", "accepted_inputs.json", "fixed_point_checks", "route.ttlv->xml", "route.json->ttlv", "route.xml->json", "crafted.json-lexical", "crafted.xml-lexical", "crafted.oasis"},
+		Required:    []string{"accepted_inputs.ttlv", "accepted_inputs.xml", "accepted_inputs.json", "fixed_point_checks", "route.ttlv->xml", "route.json->ttlv", "route.xml->json", "crafted.json-lexical", "crafted.xml-lexical", "crafted.oasis", "large_inputs", "concurrent_forwardings"},
 		EvalCounter: "fixed_point_checks",
+		// a data race inside the codec while messages are forwarded concurrently (both stacks in package ttlv) means one
+		// message may be re-encoded with another one's content
+		RaceVerdict: func(r core.RaceReport) (string, bool) {
+			in := func(st []string) string {
+				for k, f := range st {
+					if k < 3 && strings.Contains(f, "kmip-go/ttlv.") {
+						return f
+					}
+				}
+				return ""
+			}
+			if a, b := in(r.Frames[0]), in(r.Frames[1]); a != "" && b != "" {
+				return "C18:data-race-in-codec:" + a, true
+			}
+			return "", false
+		},
 		Families: []core.Family{
 			{Name: "bin-ladder", N: nOf(150, 3000), Run: runGen("bin-ladder")},
 			{Name: "bin-truncate", N: nOf(30, 1000), Run: runGen("bin-truncate")},
@@ -387,6 +529,9 @@ func Spec() *core.Spec {
 			{Name: "xml-mut", N: nOf(3000, 100000), Run: runGen("xml-mut")},
 			{Name: "text-junk", Exhaustive: true, N: func(string) int { return len(c02.Targets()) }, Run: runGen("text-junk")},
 			{Name: "crafted", N: nOf(4000, 200000), Run: crafted},
+			{Name: "large", N: nOf(28, 1400), Run: largeInputs},
+			// processes of their own, built with the race detector
+			{Name: "concurrent", Isolated: true, Race: true, N: nOf(2, 40), Run: concurrentForwarding, Timeout: 120 * time.Second},
 		},
 	}
 }
